@@ -531,6 +531,13 @@ MoveInfo Position::do_move(Move move)
             set_enpassant_square(NO_SQUARE);
     }
 
+    // a game longer than MAX_PLIES plies: forget the oldest half of the key history instead of
+    // writing past the array (repetitions cannot reach back that far without a clock reset)
+    if (_history_counter >= MAX_PLIES)
+    {
+        std::copy(_history + MAX_PLIES / 2, _history + MAX_PLIES, _history);
+        _history_counter -= MAX_PLIES / 2;
+    }
     assert(_history_counter < MAX_PLIES);
     _history[_history_counter++] = _zobrist_hash.get_key();
 
